@@ -345,8 +345,14 @@ BundleZeroItems(ev) ==
            actOK == (ev.e # "act" \/ ~Has(ev, "Ja")) \/ (OffBlockZero(g, ev.Ja, Dim, DoF) /\ OffBlockZero(g, ev.Jp, Dim, Dim))
        IN << Item("offblock_zero", IF sq /\ actOK THEN 0 ELSE 2000000000) >>
 
+\* ---- aliases (C04): each documented alias returns exactly what the canonical member returns
+AliasItems(ev) ==
+  [i \in 1..Len(ev.names) |->
+     Item(ev.names[i], IF ev.vals[i] = ev.canon[i] /\ (("own" \in DOMAIN ev) => ev.vals[i] = ev.own[i]) THEN 0 ELSE 2000000000)]
+
 Items(ev) ==
   CASE ev.e = "layout"    -> LayoutItems(ev)
+    [] ev.e = "alias"     -> AliasItems(ev)
     [] ev.e = "belem"     -> BelemItems(ev)
     [] ev.e = "compose"   -> ComposeItems(ev)
     [] ev.e = "inverse"   -> InverseItems(ev)
